@@ -348,9 +348,11 @@ class OpRunner(object):
         argv = []
         cwd = self.neutral_cwd()
         if lab['td'] != 'none':
-            tdarg, c, tdsp = self.spell_td('c:' + lab['td'])
-            cwd = c or cwd
-            argv += ['--trash-dir', tdarg]
+            regs = lab['td'].split('+')
+            for r_ in regs:
+                tdarg, c, tdsp = self.spell_td('c:' + r_, cwd_free=(len(regs) == 1))
+                cwd = c or cwd
+                argv += ['--trash-dir', tdarg]
         res = self._run('trash-list', argv, cwd, shim_kw=shim_kw)
         lines = []
         bad = []
@@ -472,10 +474,17 @@ class OpRunner(object):
             argv.append('--dry-run')
         cwd = self.neutral_cwd()
         tdsp = None
+        tdargs = {}
         if o['td'] != 'none':
-            tdarg, c, tdsp = self.spell_td('c:' + o['td'])
-            cwd = c or cwd
-            argv += ['--trash-dir', tdarg]
+            regs = o['td'].split('+')
+            if len(regs) > 1 and self.rnd.random() < 0.5:
+                regs.reverse()
+            for r_ in regs:
+                # several --trash-dir: relative spellings need one cwd, so only the first may choose it
+                tdarg, c, tdsp = self.spell_td('c:' + r_, cwd_free=(cwd == self.neutral_cwd() and len(regs) == 1))
+                cwd = c or cwd
+                tdargs['c:' + r_] = tdarg
+                argv += ['--trash-dir', tdarg] if self.rnd.random() < 0.7 else ['--trash-dir=' + tdarg]
         if self.rnd.random() < 0.25:
             argv.append('-v')
         if o['days'] != -1:
@@ -493,9 +502,9 @@ class OpRunner(object):
             for line in res['stdout'].split(b'\n'):
                 pass
             alt = {}
-            if o['td'] != 'none':
+            for t_, tdarg in tdargs.items():
                 a = os.fsencode(tdarg)
-                alt['c:' + o['td']] = sorted(set([a, a.rstrip(b'/'), os.path.join(os.fsencode(cwd), a), os.path.join(os.fsencode(cwd), a.rstrip(b'/'))]))
+                alt[t_] = sorted(set([a, a.rstrip(b'/'), os.path.join(os.fsencode(cwd), a), os.path.join(os.fsencode(cwd), a.rstrip(b'/'))]))
             printed, bad = self.parse_trash_paths(res['stdout'], slots, alt)
         obs = {'exit': runner.exit_class(res), 'printed': printed, 'unparsed': bad}
         return obs, res
